@@ -3,45 +3,103 @@
    Only appends, subscriber starts, deliveries and ends carry obligations;
    the other events are the schedule (rotations, flusher progress) and are
    admitted as they come.  One appender per execution: the order of the
-   "append" lines is the order of the log. *)
+   "append" lines is the order of the log.
+
+   End-to-end executions (harness/cmd/c22e: a real filer, changes through its gRPC,
+   SubscribeMetadata / SubscribeLocalMetadata streams, real flushes into segment
+   files) use, instead of "append":
+     logged  id, ts, old, new    an entry the filer put into its metadata log (ts = 10 * rank)
+     ch      k, a, b, n, err     the operation that did it; n = how many entries it logged
+     stall   r                   r has not been handed the final marker change within the first
+                                 deadline (a second marker follows); "timeout": nor the second
+   and the same start / rd / end / tflush / drain lines. *)
 EXTENDS Subscribe, TraceKit
-tvars == <<avars, kitvars>>
-TraceInit == AInit /\ KitInit
-TraceReset == IsReset /\ log' = <<>> /\ sub' = [r \in Readers |-> NoSub] /\ disk' = {}
-TraceSkip == SkipStep /\ UNCHANGED avars
+VARIABLES desc,   \* end-to-end executions: <<old name, new name>> of every logged change, parallel to log
+          ag      \* per subscriber, for the finding C22-agg-arrival-time: [lag, anom] (see AggWalk)
+ext == <<desc, ag>>
+tvars == <<avars, ext, kitvars>>
+NoAg == [r \in Readers |-> [lag |-> 0, anom |-> FALSE]]
+TraceInit == AInit /\ desc = <<>> /\ ag = NoAg /\ KitInit
+TraceReset == IsReset /\ log' = <<>> /\ sub' = [r \in Readers |-> NoSub] /\ disk' = {} /\ desc' = <<>> /\ ag' = NoAg
+TraceSkip == SkipStep /\ UNCHANGED <<avars, ext>>
 
 Ids(seq) == {Id(seq[i]) : i \in 1..Len(seq)}
 
 (* ts = the timestamp the buffer is seen to have given (0: not seen yet, an "appended" line follows) *)
 TAppend == /\ IsEvent("append") /\ Strict
            /\ \E ts \in Assignable(Ev.req) : (Ev.ts = 0 \/ Ev.ts = ts) /\ AAppend(Ev.id, Ev.req, ts)
-           /\ UNCHANGED <<sub, disk>>
+           /\ UNCHANGED <<sub, disk, ext>>
 TAppended == /\ IsEvent("appended") /\ Strict
              /\ log # <<>> /\ log[Len(log)] = <<Ev.id, Ev.ts>>
-             /\ UNCHANGED avars
+             /\ UNCHANGED <<avars, ext>>
 TStart == /\ IsEvent("start") /\ Strict
           /\ Ev.r \in Readers /\ ~sub[Ev.r].on
-          /\ AStart(Ev.r, Ev.t0) /\ UNCHANGED <<log, disk>>
+          /\ AStart(Ev.r, Ev.t0) /\ UNCHANGED <<log, disk, ext>>
 (* the subscriber ran up to its next callback / wait; got = what its callback was handed on the way *)
+(* ---- known finding C22-agg-arrival-time (SubscribeMetadata, the aggregated stream) ----
+   The filer's aggregated buffer stamps every change with the time it ARRIVED there, a
+   subscriber's position is the ORIGIN time of a change.  So the in-memory part of an
+   aggregated subscription starts at the first change that ARRIVED later than the
+   subscriber's position: up to a few changes too early.  Seen from outside: once per
+   subscription the stream steps back - at the very start to changes at or before the
+   requested time, or after the persisted part to changes it has handed out already - and
+   runs on from there without a gap.  Nothing is ever skipped.
+   hw = index in the log of the latest change handed out so far (the changes up to the start
+   time count as handed out), the run is at hw - lag; anom: the step back has happened. *)
+LogIdx(e) == IF \E i \in 1..Len(log) : log[i] = e THEN CHOOSE i \in 1..Len(log) : log[i] = e ELSE 0
+RECURSIVE AggWalk(_, _)
+AggWalk(st, seq) ==       \* st = [hw, cur, anom, ok]
+  IF seq = <<>> \/ ~st.ok THEN st
+  ELSE LET i == LogIdx(Head(seq)) IN
+       IF i = 0 THEN [st EXCEPT !.ok = FALSE]
+       ELSE IF i = st.cur + 1 THEN AggWalk([st EXCEPT !.cur = i, !.hw = IF i > @ THEN i ELSE @], Tail(seq))
+       ELSE IF ~st.anom /\ i <= st.cur THEN AggWalk([st EXCEPT !.cur = i, !.anom = TRUE], Tail(seq))
+       ELSE [st EXCEPT !.ok = FALSE]
+ADeliverAgg(r, seq) ==
+  LET base == Len(log) - Len(Expected(r))          \* the changes at or before the start time
+      hw0 == base + Len(sub[r].got)
+      st == AggWalk([hw |-> hw0, cur |-> hw0 - ag[r].lag, anom |-> ag[r].anom, ok |-> TRUE], seq)
+  IN /\ sub[r].on /\ sub[r].skip = {} /\ seq # <<>>
+     /\ st.ok /\ st.anom
+     /\ sub' = [sub EXCEPT ![r].got = SubSeq(log, base + 1, st.hw)]
+     /\ ag' = [ag EXCEPT ![r] = [lag |-> st.hw - st.cur, anom |-> TRUE]]
 TRead == /\ IsEvent("rd") /\ Ev.r \in Readers
-         /\ \/ Strict /\ ADeliver(Ev.r, Ev.got)
-            \/ Deviate("C22-flush-lag-gap") /\ ADeliverLag(Ev.r, Ev.got, Ev.pend > 3)
-         /\ UNCHANGED <<log, disk>>
+         /\ \/ Strict /\ ADeliver(Ev.r, Ev.got) /\ UNCHANGED ag
+            \/ Deviate("C22-flush-lag-gap") /\ ADeliverLag(Ev.r, Ev.got, Ev.pend > 3) /\ UNCHANGED ag
+            \/ /\ Has(Ev, "kind") /\ Ev.kind = "agg"
+               /\ Deviate("C22-agg-arrival-time") /\ ADeliverAgg(Ev.r, Ev.got)
+         /\ UNCHANGED <<log, disk, desc>>
 TEnd == /\ IsEvent("end") /\ Strict /\ Ev.r \in Readers
-        /\ AEnd(Ev.r) /\ UNCHANGED avars
+        /\ AEnd(Ev.r) /\ UNCHANGED <<avars, ext>>
 (* fl2: a flush has completed (flushFn has returned and the buffer has published it) *)
 TFlush2 == /\ IsEvent("fl2") /\ Strict
-           /\ AFlushed(Ids(Ev.got)) /\ UNCHANGED <<log, sub>>
+           /\ AFlushed(Ids(Ev.got)) /\ UNCHANGED <<log, sub, ext>>
 TQuiesce == /\ IsEvent("quiesce") /\ Strict
-            /\ AFlushed(Ids(Ev.disk)) /\ UNCHANGED <<log, sub>>
+            /\ AFlushed(Ids(Ev.disk)) /\ UNCHANGED <<log, sub, ext>>
 TSilent == /\ (IsEvent("tflush") \/ IsEvent("fl1") \/ IsEvent("drain")) /\ Strict
-           /\ UNCHANGED avars
+           /\ UNCHANGED <<avars, ext>>
 (* a report of the Go race detector (a, b = the two accessing functions, sorted): no
    execution with one is admitted, except for the listed finding *)
 TRace == /\ IsEvent("race")
          /\ Deviate("C22-race-lastflushtime")
          /\ <<Ev.a, Ev.b>> = <<"log_buffer.(*LogBuffer).ReadFromBuffer", "log_buffer.(*LogBuffer).loopFlush">>
-         /\ UNCHANGED avars
+         /\ UNCHANGED <<avars, ext>>
+(* end to end: an entry of the filer's log; the operation that logged the last n entries *)
+TLogged == /\ IsEvent("logged") /\ Strict
+           /\ AAppend(Ev.id, Ev.ts, Ev.ts)
+           /\ desc' = Append(desc, <<Ev.old, Ev.new>>)
+           /\ UNCHANGED <<sub, disk, ag>>
+TChange == /\ IsEvent("ch") /\ Strict
+           /\ Ev.err = "" => /\ Ev.n <= Len(desc)
+                              /\ ChangeLogged(Ev.k, Ev.a, Ev.b, SubSeq(desc, Len(desc) - Ev.n + 1, Len(desc)))
+           /\ UNCHANGED <<avars, ext>>
+(* r has not been handed the final marker change within the first deadline; the driver publishes a second
+   marker.  Nothing is said about how fast a change is handed out (a subscriber that is only woken by the
+   NEXT change is the multi-filer check's finding X05-lost-wakeup): admitted.  A client that is not handed
+   the second marker either is a "timeout" line, which nothing admits. *)
+TStall == /\ IsEvent("stall") /\ Strict /\ Ev.r \in Readers
+          /\ UNCHANGED <<avars, ext>>
 TraceNext == TraceReset \/ TraceSkip \/ TAppend \/ TAppended \/ TStart \/ TRead \/ TEnd \/ TFlush2 \/ TQuiesce \/ TSilent \/ TRace
+             \/ TLogged \/ TChange \/ TStall
 TraceSpec == TraceInit /\ [][TraceNext]_tvars
 =============================================================================
